@@ -191,6 +191,21 @@ class C06(XsProp):
                                     bad = '`%s` decoded %s from bits %s, expected %d' % (op, sk[-1], exp, v)
                                 elif top[0] != 'G' or (('S', b'len'), ('I', n)) not in top[2]:
                                     bad = '`%s` result lacks the len tag: %s' % (op, sk[-1])
+                    elif word in ('nulbytestr', 'cstr') and op == word:
+                        rest = bits[off - start:]
+                        bs_ = [int(rest[i:i + 8], 2) for i in range(0, len(rest) - len(rest) % 8, 8)]
+                        k = (bs_.index(0) + 1) if 0 in bs_ else len(bs_)
+                        nread += 1
+                        if off % 8:
+                            nunal += 1
+                        top = cells.strip(cells.parse(sk[-1])) if sk else None
+                        want = ('B', rest[:8 * k]) if word == 'nulbytestr' else ('S', ''.join(chr(b) for b in bs_[:k] if b).encode('utf-8'))
+                        if cu[:2] + (cu[3],) != (start, end, bits) or cu[2] != off + 8 * k:
+                            bad = '`%s` moved the cursor %s -> %s (the string with its terminator has %d bits)' % (op, prev_cur, cu, 8 * k)
+                        elif sk[:-1] != prev_stack:
+                            bad = '`%s` disturbed the rest of the stack: %s -> %s' % (op, prev_stack, sk)
+                        elif top != want:
+                            bad = '`%s` returned %s, the bytes up to the terminator are %s' % (op, sk[-1], cells.fmt(want) if want[0] == 'S' else 'B' + want[1])
                     elif word == 'remain':
                         if cu != prev_cur or sk != prev_stack + ['I%x' % (end - off)]:
                             bad = '`remain` gave %s with cursor %s' % (sk[-1:], prev_cur)
